@@ -1940,7 +1940,7 @@ Section Main.
                         (objs ++ [(Some (v_qname var), VP (PStr sx))]) W) rest.
     Proof.
       intros Hv Hae Hlf Hasg Hag Hr. pose proof Hv as [Hw Hin].
-      destruct Hae as [Hty [Hcl [Htf [Hfac [Hnl [Hdf [Hsq Hat]]]]]]].
+      destruct Hae as [Hty [Hcl [Htf [Hfac [Hnl [Hdf Hat]]]]]].
       destruct (reads_prim0 var (VP (PStr sx)) TStr a (vs_leaf _ _ _ _ _ _ Hlf) Hr) as [ns [tail [Htl ->]]].
       cbn [app].
       pose proof (wfr_any u cl m _ var Hwfcl Hmcl Hin (or_introl eq_refl) Hty) as Hfree.
